@@ -10,7 +10,7 @@ import time
 
 from z3 import z3
 
-from vlib import mipcheck, mipinst, mip2smt
+from vlib import opt, mipcheck, mipinst, mip2smt
 
 ID = "C14"
 BOUNDS = ("<=4 offered tasks (independent single-task graphs, or one whole-graph chain with release_taskgraphs), <=2 workers (capacity 1-2), <=2 strategies, horizon <=12 slots, "
@@ -181,15 +181,11 @@ def ilp_reference(I, offered, exact, in_model=None, running_as_fresh=False):
 
 
 def maximize(cons, term, timeout_ms=120000):
-    o = z3.Optimize()
-    o.set("timeout", timeout_ms)
-    o.add(cons)
-    h = o.maximize(term)
-    r = o.check()
-    if r != z3.sat:
-        return str(r), None
-    v = o.upper(h)
-    return "sat", v
+    """optimum by plain-solver strengthening (vlib/opt.py): z3.Optimize is not trusted"""
+    st, v, _ = opt.maximize(cons, term, timeout_ms)
+    if st != "sat":
+        return st, None
+    return "sat", (z3.IntVal(v) if isinstance(v, int) else z3.RealVal(str(v)))
 
 
 def check_instance(spec):
